@@ -712,6 +712,9 @@ def run(ctx):
     finally:
         try:
             extra_oracles.truncated_zero_bound(ctx)
+            from .. import extra_oracles2
+            extra_oracles2.truncated_infinite_bound(ctx)
+            extra_oracles2.retention(ctx, ['GaussianKDE', "GaussianKDE(bw_method='silverman')", 'TruncatedGaussian', 'GaussianUnivariate', 'UniformUnivariate'])
         except Exception as ex:
             ctx.obligation('oracle:extra:raised', False, 'correspondence', repr(ex))
             ctx.violation('oracle:extra:raised:' + type(ex).__name__, 'extra oracle raised ' + repr(ex), {'repro': '# see tools/vf/extra_oracles.py'})
